@@ -65,7 +65,16 @@ fn descriptors(ids: &Option<Vec<Vec<u8>>>, known_types: bool) -> Option<Vec<Publ
 fn gen_ids(rng: &mut Rng, c: &Content, rp: &str) -> (&'static str, Option<Vec<Vec<u8>>>) {
     let own: Vec<Vec<u8>> = c.creds.iter().filter(|p| p.rp_id == rp).map(|p| p.credential_id.to_vec()).collect();
     let foreign: Vec<Vec<u8>> = c.creds.iter().filter(|p| p.rp_id != rp).map(|p| p.credential_id.to_vec()).collect();
-    match rng.below(11) {
+    match rng.below(13) {
+        // long lists (relying parties list every credential of an account): 9-24 entries, one of them held
+        11 | 12 if !own.is_empty() => {
+            let n = rng.range(9, 24);
+            let mut v: Vec<Vec<u8>> = (0..n).map(|_| rng.bytes(16)).collect();
+            let at = if rng.bool() { rng.below(8) } else { rng.below(n) };
+            v[at] = rng.pick(&own).clone();
+            ("long-list-with-one-hit", Some(v))
+        }
+        11 | 12 => ("long-list-of-misses", Some((0..rng.range(9, 24)).map(|_| rng.bytes(16)).collect())),
         // ids that share a prefix with a held id but are not it (shorter, longer, empty)
         8 if !own.is_empty() => {
             let o = rng.pick(&own).clone();
@@ -135,7 +144,15 @@ fn part_a(rep: &mut Report, seed: u64, index: u64) {
                 }
                 passkey_types::ctap2::get_assertion::ExtensionInputs { hmac_secret: None, prf: Some(passkey_types::ctap2::extensions::AuthenticatorPrfInputs { eval: rng.bool().then(|| passkey_types::ctap2::extensions::AuthenticatorPrfValues { first: [4; 32], second: None }), eval_by_credential: Some(by) }) }
             });
-            let res = catch(|| block_on(auth.get_assertion(ga_request(rp, &[5u8; 32], list, ext, true, false))));
+            // one assertion in six asks for neither presence nor verification, and the user-validation step
+            // reports neither: the same credential is selected as ever
+            let silent = rng.chance(1, 6);
+            if silent {
+                rig.uv.set_outcome(UvOutcome::Check { presence: false, verification: false });
+                rep.count("a_silent_requests");
+            }
+            let res = catch(|| block_on(auth.get_assertion(ga_request(rp, &[5u8; 32], list, if silent { None } else { ext }, !silent, false))));
+            rig.uv.set_outcome(UvOutcome::Check { presence: true, verification: true });
             let res = match res {
                 Ok(r) => r,
                 Err((sig, d)) => {
